@@ -24,7 +24,12 @@ EXPLANATION = (
     "return and not only in the warning branch; the partition builders' loops contract "
     "on every iteration path, the community join is guarded against the one-community "
     "result, build_agglom's tail join is on every path; (LINEARIDS, STEPS) shared "
-    "clauses on position validity and unary steps."
+    "clauses on position validity and unary steps. "
+    "Later rounds added: "
+    "(REMAIN all-nodes) the leftover heap covers every remaining node; (COMPLETE "
+    "returns-behind-loop) a builder hands its tree out only behind its completing loop; "
+    "(CHILDLESS) the set of nodes still to divide is maintained exactly by "
+    "contract_nodes_pair. "
 )
 ASSUMPTIONS = ("partition functions return one label per node; kahypar corner-case guards are not decided",)
 
